@@ -23,11 +23,14 @@ import (
 	"fmt"
 	"math/rand"
 	"net"
+	"os"
+	"os/exec"
 	"runtime"
 	"sort"
 	"strconv"
 	"strings"
 	"sync"
+	"sync/atomic"
 	"testing"
 	"time"
 
@@ -1218,10 +1221,67 @@ func c17ManyExpire(r *vh.Run) {
 	}
 }
 
+// TestC17ChildWriteVsSweep runs in a child process with GOMAXPROCS=2: a queue connection with a very short
+// client timeout (so that the periodic sweep expires and closes client queues all the time) while many
+// goroutines keep writing to a few client addresses - kcp's output path on a busy server whose writers get
+// descheduled between looking up the client's queue and sending on it. Every WriteTo must return normally
+// (the packet queued or dropped); the parent reports a child that died (e.g. "send on closed channel").
+func TestC17ChildWriteVsSweep(t *testing.T) {
+	if os.Getenv("VERIF_C17_CHILD") != "1" {
+		t.Skip("helper of TestVerifC17")
+	}
+	c := NewQueuePacketConn(c17addr(1), 50*time.Microsecond)
+	defer c.Close()
+	stop := time.Now().Add(2500 * time.Millisecond)
+	var wg sync.WaitGroup
+	var n int64
+	for g := 0; g < 200; g++ {
+		wg.Add(1)
+		go func(g int) {
+			defer wg.Done()
+			for time.Now().Before(stop) {
+				c.WriteTo([]byte{byte(g)}, c17addr(10+g%3))
+				atomic.AddInt64(&n, 1)
+				if g%4 == 0 {
+					time.Sleep(time.Duration(g) * 50 * time.Microsecond)
+				}
+			}
+		}(g)
+	}
+	wg.Wait()
+	fmt.Printf("C17CHILD writes=%d\n", atomic.LoadInt64(&n))
+}
+
+func c17WriteVsSweep(r *vh.Run) {
+	cmd := exec.Command(os.Args[0], "-test.run", "^TestC17ChildWriteVsSweep$", "-test.count=1")
+	cmd.Env = append(os.Environ(), "VERIF_C17_CHILD=1", "VERIF_OUT=", "GOMAXPROCS=2")
+	outb, _ := cmd.CombinedOutput()
+	got := ""
+	for _, l := range strings.Split(string(outb), "\n") {
+		if strings.HasPrefix(l, "C17CHILD ") {
+			got = strings.TrimPrefix(l, "C17CHILD ")
+		}
+	}
+	line := "q: NewQueuePacketConn(timeout 50us); 200 goroutines WriteTo 3 client addresses for 2.5 s while the sweep expires their queues (child process, GOMAXPROCS=2)"
+	r.Case("queue/write-vs-sweep", line, true)
+	if got == "" {
+		tail := string(outb)
+		if i := strings.Index(tail, "panic:"); i >= 0 {
+			tail = tail[i:]
+		}
+		if len(tail) > 900 {
+			tail = tail[:900]
+		}
+		r.OracleFail("queue-write-panics-against-sweep", line, "child process died: "+tail,
+			"WriteTo queues or drops the packet and returns, whatever the sweep does to the client's queue in the meantime")
+	}
+}
+
 func TestVerifC17(t *testing.T) {
 	r := vh.Start("C17")
 	defer r.Finish()
 	rng := r.Rng
+	c17WriteVsSweep(r)
 	c17RealClock(r)
 	c17AfterClose(r)
 	c17ManyExpire(r)
